@@ -240,6 +240,29 @@ func (e *Engine) jsonUnmarshal(st *State, fr *Frame, data SliceV, target IfaceV,
 		e.store(st, p, StrV{B: bs[1 : n-1]})
 		return retExit(st, IfaceV{})
 	}
+	// a JSON string into a type with UnmarshalText (netip.AddrPort, ...): encoding/json hands it the text
+	if sel := e.prog.MethodSets.MethodSet(types.NewPointer(et)).Lookup(nil, "UnmarshalText"); sel != nil && e.prog.MethodSets.MethodSet(types.NewPointer(et)).Lookup(nil, "UnmarshalJSON") == nil {
+		if m := e.prog.MethodValue(sel); m != nil && m.Pkg != nil && (e.isRepoFn(m) || allowedStdPkg(m.Pkg.Pkg.Path())) && !data.Nil {
+			if n, ok := e.sliceLenConst(data); ok && n >= 2 {
+				bs := e.bytesOf(st, data)
+				if inner, ok := e.jsonTextString(st, bs); ok {
+					var out []exit
+					for _, r := range e.callFunction(st, fr, m, []Value{p, e.newByteSlice(st, inner.B)}, nil, pos) {
+						if r.kind == exitPanic {
+							out = append(out, r)
+							continue
+						}
+						if ev, ok := r.val.(IfaceV); ok && ev.T != nil {
+							out = append(out, exit{st: r.st, kind: exitReturn, val: errV})
+							continue
+						}
+						out = append(out, exit{st: r.st, kind: exitReturn, val: IfaceV{}})
+					}
+					return out
+				}
+			}
+		}
+	}
 	// composite targets: havoc stub (DESIGN 4.5) - either an error, or an arbitrary value of the static type
 	var out []exit
 	s2 := st.fork()
